@@ -159,6 +159,7 @@ class WorldJob(object):
             raise AbortWorld()
         self.stats['runs'] += 1
         self.stats['events'] += len(rec['events'])
+        self.stats['clock_reads'] = self.stats.get('clock_reads', 0) + rec.get('clock_reads', 0)
         for f in rec['fired']:
             k = f['ev'] + ':' + f['kind']
             self.stats['faults_fired'][k] = self.stats['faults_fired'].get(k, 0) + 1
